@@ -32,6 +32,11 @@ func (t *tracingTransport) Submit(op *runtime.ClientOperation) (interface{}, err
 		return t.transport.Submit(op)
 	}
 
+	// wrap Params and Reader on a copy: the caller's operation value is left as it is (it may be submitted again, or be
+	// shared by several goroutines, as it may with Runtime.Submit)
+	opCopy := *op
+	op = &opCopy
+
 	params := op.Params
 	reader := op.Reader
 
